@@ -126,6 +126,21 @@ NEEDS = {
  "C17h": "HELD-OUT 3: one primary output inside the cone of another, with a side path from one of its fan-ins around it",
  "C18h": "HELD-OUT 3: two feedback edges with different sources plus a forward edge from the cut node of one loop into the re-entry gate of the other (batched disconnect removes the cross product)",
  "C19h": "HELD-OUT 3: circuit_to_bench / to_file(fmt='bench') of a circuit with constants but no primary input",
+ "C01i": "HELD-OUT 4: a parity gate with fan-in >= 3 next to a separate 2-input xnor over two of its fan-ins, under a set order in which the wide gate's chain ends with that pair (6 of 16 PYTHONHASHSEED values on the demo)",
+ "C03i": "HELD-OUT 4: at least two blackbox instances where an earlier written instance has a pin name that a later instance's type lacks (stale .pin(net) entries carried over)",
+ "C04i": "HELD-OUT 4: an xor/xnor with >= 4 fan-ins in a compared cone, and a difference that shows where that gate has odd parity (all chain helpers share one CNF variable)",
+ "C05i": "HELD-OUT 4: insert_registers on a circuit with a pre-existing blackbox and a GATE named like an other_flop_io key (clk) on a stage boundary that drives a blackbox input pin",
+ "C06i": "HELD-OUT 4: add_subcircuit of a child that contains a nested blackbox, called WITHOUT connections (None or {}): the nested instance is not registered",
+ "C07i": "HELD-OUT 4: fill_blackbox with a model containing a nested blackbox whose prefixed name is already registered in the parent while no node name clashes: rejected after the graph was modified",
+ "C08i": "HELD-OUT 4: a blackbox instance with a connected input pin and an assumption that names that pin (bb_input encoded as a free variable)",
+ "C09i": "HELD-OUT 4: initial_values given as a dict and a flop instance named like an io of the stripped circuit (registered output r driven by flop r)",
+ "C10i": "HELD-OUT 4: an or/nor gate with a buf among its fan-ins",
+ "C11i": "HELD-OUT 4: influence / avg_sensitivity of a startpoint that reaches the node through an even number of parity-only paths",
+ "C15i": "HELD-OUT 4: circuit_to_bench of a circuit with a constant node (the input used to spell the constant is popped from the set that prints the INPUT lines)",
+ "C16i": "HELD-OUT 4: remove_unloaded on a circuit whose non-output nodes carry no `output` attribute (fast Verilog reader, Circuit(graph=g))",
+ "C17i": "HELD-OUT 4: two or more single-input gates in series on a branch outside any reconvergent region",
+ "C18i": "HELD-OUT 4: acyclic_unroll(A) then acyclic_unroll(B) in one interpreter where B has the wiring of A but another gate type somewhere (memo keyed by wiring only)",
+ "C19i": "HELD-OUT 4: circuit_to_verilog / to_file of a blackbox-free circuit with an escaped node name (\\a[0])",
  "C18d": "(helper: Circuit.disconnect testing `u in us` with a single name, i.e. a substring test) a cut feedback node whose name contains the name of another driver of one of its loads (n12 / n1)",
  "C19c": "influence/avg_sensitivity with supergates=True and a peer failure in the middle (solver raises, pysat unimportable, approxmc missing or exit 1)",
  "C19": "tx.subcircuit asked for ALL nodes of a blackbox-free circuit (directly or through sensitization_transform / influence with an endpoint whose cone is the whole circuit), then any edit or the internal set_output",
@@ -154,7 +169,9 @@ def main():
         if not os.path.isfile(os.path.join(d, "patch.diff")) or (only and sid not in only):
             continue
         prop = sid[:3]
-        if sid.endswith("h"):
+        if sid.endswith("i"):
+            src2 = " (round 9, fourth held-out measurement; agents were also asked for side observations on the original code)"
+        elif sid.endswith("h"):
             src2 = " (round 8, third held-out measurement: property text plus the list of all earlier changes not to repeat)"
         elif sid.endswith("g"):
             src2 = " (round 7, second held-out measurement: property text plus the list of all earlier changes not to repeat)"
